@@ -14,7 +14,7 @@ static char invmsg[256];
 static const char *T_PAIR[] = {NULL, "1", "2"};
 static const char *T_TOKSRC[] = {NULL, "a b 'c d'", "x:y"};
 static const char *T_TOKSEP[] = {NULL, ":", ";"};
-static const char *T_URL[] = {NULL, "h2", "http://u@h1:80/p?q"};
+static const char *T_URL[] = {NULL, "h2", "http://u:pw@h1:80/p?q"};
 static const char *T_URLHOST_PARSED[] = {NULL, "h2", "h1"};
 static const char *T_HOSTSET[] = {NULL, "zz1", "zz2"};
 static const char *T_RE[] = {NULL, "a", "b+"};
@@ -69,7 +69,13 @@ static const char *project(int k, vh_sb *out) {
     } else if (is("url")) {
         spif_url_t x = (spif_url_t) o; const char *h = strtext(spif_url_get_host(x));
         p = id_of(strtext(SPIF_STR(x)), T_URL, 2);
-        q = (h && (!strcmp(h, "zz1") || !strcmp(h, "zz2"))) ? id_of(h, T_HOSTSET, 2) : 0;
+        q = (h && (!strcmp(h, "zz1") || !strcmp(h, "zz2"))) ? id_of(h, T_HOSTSET, 2) : ((p > 0 && !h) ? 3 : 0);   /* 3: cleared */
+        if (p == 2) {   /* the other components of the long text must read back as parsed, in the original and in any copy */
+            const char *u = strtext(spif_url_get_user(x)), *pw = strtext(spif_url_get_passwd(x)), *pr = strtext(spif_url_get_proto(x));
+            const char *po = strtext(spif_url_get_port(x)), *pa = strtext(spif_url_get_path(x)), *qu = strtext(spif_url_get_query(x));
+            if (!u || strcmp(u, "u") || !pw || strcmp(pw, "pw") || !pr || strcmp(pr, "http") || !po || strcmp(po, "80")
+                || !pa || strcmp(pa, "/p") || !qu || strcmp(qu, "q")) { snprintf(invmsg, sizeof(invmsg), "url:%s_components_differ_from_parsed_text", k ? "b" : "a"); return invmsg; }
+        }
         if (p > 0 && q == 0 && (!h || strcmp(h, T_URLHOST_PARSED[p]))) { snprintf(invmsg, sizeof(invmsg), "url:%s_host=%s", k ? "b" : "a", h ? h : "NULL"); return invmsg; }
     } else {
         spif_regexp_t x = (spif_regexp_t) o; const char *t = strtext(SPIF_STR(x));
@@ -120,6 +126,11 @@ static const char *vh_step(const vh_step_t *st, vh_sb *ret, vh_sb *state) {
         spif_bool_t r = is("objpair") ? spif_objpair_set_value(SPIF_OBJPAIR(S[k]), SPIF_OBJ(mkstr(T_PAIR[a0])))
                       : is("tok") ? spif_tok_set_sep((spif_tok_t) S[k], mkstr(T_TOKSEP[a0]))
                       : spif_url_set_host((spif_url_t) S[k], mkstr(T_HOSTSET[a0]));
+        sb_bool(ret, r);
+    } else if (OP("clear_q")) {
+        spif_bool_t r = is("objpair") ? spif_objpair_set_value(SPIF_OBJPAIR(S[k]), (spif_obj_t) NULL)
+                      : is("tok") ? spif_tok_set_sep((spif_tok_t) S[k], (spif_str_t) NULL)
+                      : spif_url_set_host((spif_url_t) S[k], (spif_str_t) NULL);
         sb_bool(ret, r);
     } else if (OP("set_flags")) {
         sb_bool(ret, spif_regexp_set_flags((spif_regexp_t) S[k], (spif_charptr_t) (a0 ? "i" : "")));
